@@ -116,8 +116,13 @@ class ExprMixin:
             if isinstance(v, BoolV):
                 return BoolV(None, negate_cond(v.cond))
             if isinstance(v, MaybeV):
-                return BoolV(None, ("isnone", v.path))
-            raise Unmodelled("not of %r at %s" % (v, frame.loc(node)))
+                # falsy when None (or, for numbers, zero): explored as two paths
+                tv = self.truth(v, frame, node)
+                return BoolV(not tv)
+            if isinstance(v, Num):
+                return BoolV(None, ("eq", v.r, Rat.const(0)))
+            tv = self.truth(v, frame, node)
+            return BoolV(not tv)
         if isinstance(node.op, ast.USub):
             return self.map_num(v, lambda r: -r, frame, node)
         if isinstance(node.op, ast.UAdd):
@@ -292,6 +297,11 @@ class ExprMixin:
             c = ("is", key_str(val_key(l)), key_str(val_key(r)))
             return BoolV(None, c if isinstance(op, ast.Is) else ("not", c))
         if isinstance(op, (ast.In, ast.NotIn)):
+            if isinstance(r, DictV) and isinstance(l, StrV):
+                k = l if l.s is not None else self.concretize_str(l, frame, node)
+                if k is not None and k.s is not None:
+                    res = k.s in r.items
+                    return BoolV(res if isinstance(op, ast.In) else not res)
             c = ("in", key_str(val_key(l)), key_str(val_key(r)))
             if isinstance(r, ListV) and r.kind == "lit" and isinstance(l, Num) and l.r.is_const() \
                     and all(isinstance(x, Num) and x.r.is_const() for x in r.items):
